@@ -272,7 +272,7 @@ class NodeSuite(Suite):
     evals = {'mismatches': 'mismatches'}
     shard_size = 100
 
-    def __init__(self, evals=None, quick=(1200, 60), thorough=(20000, 300)):
+    def __init__(self, evals=None, quick=(1200, 60), thorough=(6000, 150)):
         self._clock = False
         if evals:
             self.evals = dict(evals)
